@@ -123,13 +123,13 @@ def step_argv(case: dict[str, Any], i: int) -> list[str]:
     return list(a) if a else ["main.py"]
 
 
-UNSUPPORTED_FLAGS = ("--config-file", "--python-executable", "--custom-typeshed-dir", "--shadow-file", "--cache-map", "--bazel", "--package-root", "--junit-xml", "-report", "--quickstart-file", "--install-types", "--plugin")
+UNSUPPORTED_FLAGS = ("--verbose", "--config-file", "--python-executable", "--custom-typeshed-dir", "--shadow-file", "--cache-map", "--bazel", "--package-root", "--junit-xml", "-report", "--quickstart-file", "--install-types", "--plugin")
 
 
 def usable(case: dict[str, Any]) -> bool:
     for fl in case["flags"]:
         for t in fl or []:
-            if any(u in t for u in UNSUPPORTED_FLAGS):
+            if any(u in t for u in UNSUPPORTED_FLAGS) or t in ("-v", "-vv"):
                 return False
     for st in case["steps"]:
         for p in st:
